@@ -44,6 +44,8 @@ type Fault struct {
 	Op  string `json:"op"`  // write | writev | flush | read
 	K   int    `json:"k"`   // 1-based call index of that op
 	Err string `json:"err"` // plain | timeout | neterr | eof
+	// Partial: the failing Write/Writev reports n = 1 together with the error (a write that failed after partial progress)
+	Partial bool `json:"partial,omitempty"`
 }
 
 // MakeErr builds the error object for a fault kind.
@@ -94,6 +96,7 @@ type Transport struct {
 	// Tracker, when set (real-goroutine mode), is told when the reading goroutine parks and when it is woken.
 	Tracker     *Tracker
 	parkCounted bool
+	lastPartial bool
 }
 
 // NewTransport creates a mock transport.
@@ -129,10 +132,12 @@ func (t *Transport) yield(label string, pred func() bool) {
 // fault returns the injected error for this call of op, if any.
 func (t *Transport) fault(op string) error {
 	t.counts[op]++
+	t.lastPartial = false
 	for i, f := range t.faults {
 		if f.Op == op && f.K == t.counts[op] {
 			e := MakeErr(f.Err)
 			t.FaultErr[i] = e
+			t.lastPartial = f.Partial
 			return e
 		}
 	}
@@ -167,8 +172,12 @@ func (t *Transport) Write(p []byte) (int, error) {
 	if err := t.fault("write"); err != nil {
 		t.Events[idx].Rejected, t.Events[idx].Err, t.Events[idx].End = true, err.Error(), len(t.accepted)
 		t.Events[idx].EndSeq = t.seq()
+		n := 0
+		if t.lastPartial && len(p) > 0 {
+			n = 1
+		}
 		t.mu.Unlock()
-		return 0, err
+		return n, err
 	}
 	if t.SplitWrites && len(p) > 1 {
 		h := len(p) / 2
@@ -217,8 +226,12 @@ func (t *Transport) Writev(buffs transport.Buffers) (int64, error) {
 	if err := t.fault("writev"); err != nil {
 		t.Events[idx].Rejected, t.Events[idx].Err, t.Events[idx].End = true, err.Error(), len(t.accepted)
 		t.Events[idx].EndSeq = t.seq()
+		n := int64(0)
+		if t.lastPartial && total > 0 {
+			n = 1
+		}
 		t.mu.Unlock()
-		return 0, err
+		return n, err
 	}
 	for i, b := range buffs {
 		t.accept(b)
